@@ -55,7 +55,9 @@ class Bounded:
                     fails.append(dict(case=inp, klass=k, observed=res.get("observed"), expected=res.get("expected")))
             return dict(evaluations=n, distinct=len(distinct), failures=fails)
 
-        return Bounded(name, run, bound)
+        b = Bounded(name, run, bound)
+        b.rt = rt
+        return b
 
 
 def _wants_tier(f):
@@ -193,11 +195,14 @@ def _verify_one(args):
             if ob.kind != "post":
                 continue
             posts += 1
-            r = discharge(_with_lemmas(ob), 2, use_cvc5=False, tactics=False)
+            if can["live_paths"] >= 2 or posts > 12:
+                continue  # two independent non-vacuous return paths are enough for the canary
+            r = discharge(_with_lemmas(ob), 1, use_cvc5=False, tactics=False)
             if r["status"] == "proved":
                 can["vacuous_paths"] += 1
             else:
                 can["live_paths"] += 1
+        can["post_obligations"] = posts
         can["falsified_post_fails"] = (can["live_paths"] > 0) if posts else None
         out["canary"] = can
     except V.OutOfSubset as e:
